@@ -6,7 +6,7 @@
 (*  mal    : for a few base tuples — truncation at every field boundary -1/0/+1,    *)
 (*           trailing bytes, every declared length -1/+1, |c| = 2^31, 2^32-1;       *)
 (*  big    : (thorough) one-at-a-time large sizes: 2^24-1, z = 65535, |a| = Z_I ... *)
-(* The check script samples `valid` in the quick tier (seeded) and keeps the rest.  *)
+(* In the quick tier `valid` is a Seed-chosen fifteenth of the product (Pick).       *)
 EXTENDS StdInit, Json, TLC, SequencesExt
 CONSTANTS OutFile, Tier, Seed
 VARIABLE x
@@ -32,7 +32,10 @@ Cut(bs, k) == IF bs = <<>> \/ k <= 0 THEN <<>>
 
 Case(tag, blob, arg) == [tag |-> tag, blob |-> blob, arg |-> arg]
 
-Valid == {Case("valid", Blob(ol, wl, z, s, (ol + z) % 3), Arg(al, ol + wl)) : ol \in Sizes, wl \in Sizes, z \in Zs, s \in Ss, al \in As}
+\* quick: a Seed-dependent fifteenth of the product (every value of every dimension still occurs); thorough: all of it
+Pick(t) == Tier = "thorough" \/ ((t[1] % 97) * 7 + (t[2] % 89) * 11 + t[3] * 13 + (t[4] % 83) * 17 + (t[5] % 79) * 19 + Seed * 23) % 15 = 0
+Tuples == {t \in Sizes \X Sizes \X Zs \X Ss \X As : Pick(t)}
+Valid == {Case("valid", Blob(t[1], t[2], t[3], t[4], (t[1] + t[3]) % 3), Arg(t[5], t[1] + t[2])) : t \in Tuples}
 
 \* data with zero bytes in it: leading zeros, a zero tail that fills the last page, a whole zero page in the middle
 ZLead(n) == <<Lit(<<0, 0, 0, 5>>), PatSeg(9, n - 4)>>
